@@ -245,7 +245,8 @@ class Runner:
         rc, o, e = sh(cmd, timeout=600)
         if rc != 0: raise Undecided('job %s: goto-cc failed: %s' % (job.name, (o + e)[-3000:]))
         cur = gb
-        if job.unwind is not None or job.unwindset:
+        if (job.unwind is not None or job.unwindset) and job.mode != 'assert':
+            # (assert mode: no dfcc afterwards, so loops are unwound lazily by cbmc itself, see cbmc_cmd)
             nxt = os.path.join(d, 'u.gb')
             cmd = ['goto-instrument']
             if job.unwind is not None: cmd += ['--unwind', str(job.unwind)]
@@ -287,6 +288,9 @@ class Runner:
         elif job.backend == 'z3': cmd += ['--z3']
         elif job.backend == 'cadical': cmd += ['--sat-solver', 'cadical']
         elif job.backend == 'kissat': cmd += ['--external-sat-solver', 'kissat']
+        if job.mode == 'assert' and job.unwind is not None and '--unwind' not in job.cbmc_flags:
+            cmd += ['--unwind', str(job.unwind), '--unwinding-assertions']
+        for us in (job.unwindset if job.mode == 'assert' else []): cmd += ['--unwindset', us]
         cmd += job.cbmc_flags
         return cmd
 
@@ -564,7 +568,11 @@ def main(prop, jobs_fn, meta):
 
 def write_evidence(prop, tier, seed, jobs, meta, wall, nviol, known_hits, undecided):
     os.makedirs(os.path.join(VERIF, 'evidence'), exist_ok=True)
-    tot = sum(j.obligations for j in jobs); dis = sum(j.discharged for j in jobs)
+    # jobs that exist to show that a recorded known finding still reproduces are expected to fail one obligation: they are
+    # reported separately and are not part of the obligations / discharged totals of the property
+    kf_jobs = set(j.name for j, _ in known_hits)
+    counted = [j for j in jobs if j.name not in kf_jobs]
+    tot = sum(j.obligations for j in counted); dis = sum(j.discharged for j in counted)
     complete = [j for j in jobs if j.label == 'complete']
     bounded = [j for j in jobs if j.label != 'complete']
     level = meta.get('level', 'proof')
@@ -597,6 +605,7 @@ def write_evidence(prop, tier, seed, jobs, meta, wall, nviol, known_hits, undeci
         'samples': samples,
         'declared_only_externals_called': sorted(declared_only),
         'known_findings_reproduced': [k['what'] for _, kf in known_hits for k in kf],
+        'known_finding_jobs_not_counted': sorted(kf_jobs),
         'undecided_jobs': [j.detail[:300] for j in undecided],
         'solver_s_total': round(sum(j.solver_s for j in jobs), 1),
     }
